@@ -18,7 +18,7 @@
 (***************************************************************************)
 EXTENDS Integers, Sequences, FiniteSets
 
-CmdBound == 8            \* the per-command functions have the fixed domain 1..CmdBound; NCmd <= CmdBound
+CmdBound == 4            \* the per-command functions have the fixed domain 1..CmdBound; NCmd <= CmdBound
 
 CONSTANTS
     \* @type: Int;
